@@ -201,6 +201,12 @@ def generate(rng, tier, weights=None, max_ops=None, hostile=0.2):
     # nested histories: created on sub-directories before/after the outer root
     if rng.random() < weights.get("nested", 0.45):
         state["nested"] = scen.subroots_of(tree, rng, 3)
+        if rng.random() < 0.25:
+            # a nested history that later generations of the parent may ignore completely (-i skipme)
+            tree.setdefault("skipme", {"t": "d"})
+            tree.setdefault("skipme/s.bin", {"t": "f", "c": gen.unique_content(rng)})
+            state["tree"] = dict(tree)
+            state["nested"] = sorted(set(state["nested"]) | {"skipme"})
         if rng.random() < 0.2:
             # sibling histories whose folders share a base name (P1/Clips, P2/Clips): same manifest names in one run
             for parent in ("P1", "P2"):
